@@ -29,7 +29,6 @@ let rec sresult_json (r : sresult) : json =
              ("class", JStr (cls_string (class_of r)));
              ("row_type", of_n (row_type (class_of r))) ]
   | SNoMatch -> JObj [("error", JStr "ValueError")]
-  | SStructError -> JObj [("error", JStr "struct.error")]
   | SFuel -> JObj [("error", JStr "MODEL-OUT-OF-FUEL")]
 and value_json (v : value) : json =
   match v with
